@@ -483,6 +483,73 @@ def client_publish_case(ctx, prefixes: tuple[str, str], lines: list[str]) -> Non
             break
 
 
+def concurrent_publish_case(ctx, case: dict) -> None:
+    """Several tasks write through one MQTTClient while the broker is slow (publish suspended); some of the waiting
+    writers are cancelled (a wait_for around send expiring).  Every write() that RETURNS must have published exactly
+    its own topic / payload / QoS, in call order; nothing that was not written may be published."""
+    from aiomysensors.transport.mqtt import MQTTClient
+
+    log: dict = {}
+
+    async def scenario() -> None:
+        transport = MQTTClient("broker.invalid", 1883, in_prefix="in", out_prefix="out")
+        await transport.connect()
+        client = FakeClient.instances[-1]
+        FakeClient.publish_gate = asyncio.Event()
+        completed: list[str] = []
+        cancelled: list[str] = []
+
+        async def writer(line: str) -> None:
+            await transport.write(line)
+            completed.append(line)
+
+        lines = [f"{i};0;1;{i % 2};{i};p{i}\n" for i in range(1, case["writers"] + 1)]
+        tasks = [asyncio.ensure_future(writer(line)) for line in lines]
+        for _ in range(4):
+            await asyncio.sleep(0)
+        for index in case["cancel"]:
+            if index < len(tasks):
+                tasks[index].cancel()
+                cancelled.append(lines[index])
+        for _ in range(2):
+            await asyncio.sleep(0)
+        FakeClient.publish_gate.set()
+        await asyncio.gather(*tasks, return_exceptions=True)
+        later = [f"9;9;1;0;{90 + i};late{i}\n" for i in range(case["later"])]
+        for line in later:
+            await writer(line)
+        log.update(completed=completed, cancelled=cancelled, published=list(client.published), lines=lines + later)
+        FakeClient.publish_gate = None
+        await transport.disconnect()
+
+    with install() as seam:
+        if not seam:
+            ctx.skip("fake-client", "no aiomqtt client seam")
+            return
+        result, _loop = run_virtual(scenario)
+    ctx.case(("concurrent-publish", case["writers"], tuple(case["cancel"]), case["later"]), sample=case)
+    ctx.clause("concurrent-publish")
+    if isinstance(result, LogicalDeadlock):
+        ctx.violation("mqtt-write-deadlock", "logical deadlock: a write can never complete", case)
+        return
+    if isinstance(result, BaseException):
+        ctx.violation("concurrent-publish-raised", f"{type(result).__name__}: {result!s:.80}", case)
+        return
+
+    def args_of(line: str) -> tuple:
+        n, c, cmd, ack, t, payload = line.rstrip("\n").split(";", 5)
+        return (f"out/{n}/{c}/{cmd}/{ack}/{t}", payload, int(ack))
+
+    published = [(topic, "" if payload is None else payload, qos) for topic, payload, qos, _r in log["published"]]
+    must = [args_of(line) for line in log["lines"] if line in log["completed"]]
+    may = {args_of(line) for line in log["cancelled"]}
+    core = [p for p in published if p not in may or p in must]
+    if [p for p in core if p in must] != must or [p for p in published if p not in must and p not in may]:
+        ctx.violation("publish-arguments-differ",
+                      f"{case['writers']} concurrent writers, cancelled {case['cancel']}: completed writes {must!r:.200} but the "
+                      f"client published {published!r:.200}", case)
+
+
 # ----------------------------------------------------------------------------- mini broker (thorough)
 async def broker_case(ctx, n_messages: int, seed: int) -> None:
     import random
@@ -556,6 +623,8 @@ def run_case(ctx, case: dict) -> None:
         script = [tuple(bytes.fromhex(x["__bytes__"]) if isinstance(x, dict) else x for x in op) if isinstance(op, list) else op
                   for op in case["script"]]
         client_script_case(ctx, script, tuple(case["prefixes"]))
+    elif kind == "concurrent-publish":
+        concurrent_publish_case(ctx, case)
     elif kind == "client-burst":
         client_burst_case(ctx, case["n"])
     elif "backlog" in case:
@@ -598,11 +667,19 @@ def run(ctx) -> None:
                                   {"kind": "backlog", "backlog": "read-before-connect"}]):
             if ctx.mine(i):
                 arun(backlog_case(ctx, case))
+        index = 0
+        for writers in (1, 2, 3, 5):
+            for cancel in ([], [0], [1], [writers - 1], [1, 2], list(range(1, writers))):
+                for later in (0, 2):
+                    index += 1
+                    if ctx.mine(index):
+                        concurrent_publish_case(ctx, {"kind": "concurrent-publish", "writers": writers,
+                                                      "cancel": sorted(set(c for c in cancel if 0 <= c < writers)), "later": later})
         for i, n in enumerate((100, 1500, ctx.pick(3000, 40000))):
             if ctx.mine(i + 1):
                 client_burst_case(ctx, n)
         # fake client scripts on the VLoop
-        alphabet = ["msg", ("bin", b"\xff\xfe"), "err", "read", "yield"]
+        alphabet = ["msg", ("bin", b"\xff\xfe"), "err", "read", "yield", ("msg", "\ufeffbom")]
         count = 0
         for length in range(0, ctx.pick(5, 7) + 1):
             for script in itertools.product(alphabet, repeat=length):
@@ -618,7 +695,7 @@ def run(ctx) -> None:
             for _ in range(rng.randint(1, 30)):
                 roll = rng.random()
                 if roll < 0.4:
-                    script.append(("msg", rng.choice(["", "a;b", "x/y", "日本", "v"])))
+                    script.append(("msg", rng.choice(["", "a;b", "x/y", "日本", "v", "\ufeff21.5", "\ufeff", "\u200bz", " lead"])))
                 elif roll < 0.5:
                     script.append(("bin", rng.choice([b"\xff", b"\xc3\x28", b"\xf0\x9f\x98", b"ok\x80"])))
                 elif roll < 0.55:
